@@ -270,6 +270,14 @@ func runC13With(c *c13Case, srv *c13Server, server *lime.Server, env *c13Env) *c
 			obs.InitiatorConnLater = obs.InitiatorConnLater || t.Connected()
 		}
 	}
+	if client != nil && strings.HasPrefix(c.Initiator, "server") {
+		// the high-level client closes the channel of the ended session on its own (its listener comes back for a channel)
+		dialedMu.Lock()
+		first := dialed[0]
+		dialedMu.Unlock()
+		env.settle(bound, func() bool { return !first.Connected() })
+		obs.ClientKeptLost = first.Connected()
+	}
 	// the observing side closes its channel (the high-level client does so on its own / at Close)
 	if cc != nil {
 		_ = cc.Close()
